@@ -476,6 +476,25 @@ def _reads_shard(_):
     return acc
 
 
+def _observe_readonly(b, t):
+    """Every read-only public operation a block offers; exceptions are not this probe's business."""
+    probes = [lambda: len(b), lambda: list(iter(b)), lambda: b.nBytes, lambda: repr(b), lambda: b == b, lambda: specs.lib_encode(b)]
+    try:
+        items = editwalk.lib_items(b, t)
+    except Exception:  # noqa: BLE001
+        items = []
+    for i, it in enumerate(items):
+        lab = getattr(it, "label", None)
+        probes += [lambda i=i: b[i], lambda it=it: it in b, lambda it=it: it.nBytes, lambda it=it: repr(it)]
+        if isinstance(lab, str):
+            probes += [lambda lab=lab: b[lab], lambda lab=lab: lab in b]
+    for p in probes:
+        try:
+            p()
+        except Exception:  # noqa: BLE001
+            pass
+
+
 def _reach_shard(_):
     """Structural form of the property, for all nine kinds: no mutable object (array memory, list, item
     object, viewport ...) is reachable from two separately created blocks, nor from two items of one
@@ -513,6 +532,8 @@ def _reach_shard(_):
                 wit = {"reach": [t, v, na, nb]}
                 try:
                     a, b = makers[na](), makers[nb]()
+                    for x in (a, b):      # use both blocks the read-only way first (whatever that caches)
+                        _observe_readonly(x, t)
                     sh = reach.shared(a, b)
                     inner = []
                     if nb.startswith("decoded"):
